@@ -15,6 +15,7 @@ GROUPS = {
     "dil_mid": ["C10", "C13"],
     "dil_flow": ["C15"],
     "dil_timer": ["C16"],
+    "dil_full": ["C11", "C17"],
 }
 
 
